@@ -33,6 +33,10 @@
 #include <upipe-ts/uref_ts_flow.h>
 #include <upipe-ts/upipe_ts_decaps.h>
 #include <upipe-ts/upipe_ts_pes_decaps.h>
+#include <upipe-ts/upipe_ts_pes_encaps.h>
+#include <upipe-ts/upipe_ts_encaps.h>
+#include <upipe-ts/upipe_ts_mux.h>
+#include <upipe/urequest.h>
 
 #include <stdlib.h>
 #include <string.h>
@@ -49,6 +53,8 @@ enum {
     V_FATAL_UNEXPECTED,
     V_CONTROL,
     V_OUT_OF_NOTHING,       /* more octets out than payload octets in */
+    V_PES_HEADER,           /* the PES packet written by pes_encaps is not what the standard lays out */
+    V_TS_PACKET,            /* a packet written by ts_encaps is not what the standard lays out */
 };
 
 static const char *class_name(int cls)
@@ -64,6 +70,8 @@ static const char *class_name(int cls)
     case V_FATAL_UNEXPECTED: return "fatal_unexpected";
     case V_CONTROL: return "control";
     case V_OUT_OF_NOTHING: return "out_of_nothing";
+    case V_PES_HEADER: return "pes_header";
+    case V_TS_PACKET: return "ts_packet";
     default: return NULL;
     }
 }
@@ -81,7 +89,9 @@ static const char *op_name(int code)
     return code > 0 && code < OP__N ? n[code] : "?";
 }
 
-enum { CFG_PROP = 0, CFG_KIND, CFG_POOL, CFG_RELEASE_AT, CFG_FAULTS, CFG_UMEM_OFF, CFG_PID, CFG_CC0 };
+enum { CFG_PROP = 0, CFG_KIND, CFG_POOL, CFG_RELEASE_AT, CFG_FAULTS, CFG_UMEM_OFF, CFG_PID, CFG_CC0, CFG_PES_ID, CFG_PES_HEADER,
+       CFG_ALIGN, CFG_PCR_INTERVAL, CFG_OCTETRATE, CFG_MUX_STEP };
+enum { K_DECAPS = 0, K_ROUNDTRIP, K_TSENCAPS, K__N };
 
 #define MAXAU 12
 #define MAXAUSIZE 4000
@@ -97,6 +107,11 @@ static bool fault_fired;
 
 static bool checking(void) { return !sim_violation_class(); }
 
+/* debugging helpers of upipe_ts_mux.c (not compiled here: it needs the whole
+ * biTStream PSI/SI set); upipe_ts_encaps.c only uses them to name commands */
+const char *upipe_ts_mux_event_str(int event) { (void)event; return NULL; }
+const char *upipe_ts_mux_command_str(int cmd) { (void)cmd; return NULL; }
+
 /* ------------------------------------------------------------ access units */
 static struct au {
     uint8_t data[MAXAUSIZE];
@@ -107,6 +122,8 @@ static struct au {
     int hdr_stuffing;
     bool bounded, rai;
     int first_pkt, last_pkt;    /* TS packets carrying it */
+    uint8_t pes[MAXAUSIZE + 300];   /* the PES packet as it goes on the wire */
+    int pes_len;
 } aus[MAXAU];
 static int nau;
 
@@ -216,14 +233,12 @@ static void packetise(void)
 {
     unsigned pid = 32 + (unsigned)((uint64_t)plan->cfg[CFG_PID] % 8000);
     unsigned cc = (unsigned)((uint64_t)plan->cfg[CFG_CC0] % 16);
-    int opi = 0;
+    int opi = 0, burst_left = 0;
     npkt = 0;
     for (int n = 0; n < nau; n++) {
         struct au *a = &aus[n];
-        static uint8_t pes[MAXAUSIZE + 64];
-        int hl = ref_pes_header(a, pes);
-        memcpy(pes + hl, a->data, (size_t)a->len);
-        int total = hl + a->len, off = 0;
+        const uint8_t *pes = a->pes;
+        int total = a->pes_len, off = 0;
         a->first_pkt = npkt;
         while (off < total && npkt < MAXPKT - 2) {
             const struct sim_op *op = next_pkt_op(&opi);
@@ -250,7 +265,7 @@ static void packetise(void)
             memset(p, 0, sizeof(*p));
             p->au = n;
             p->pusi = off == 0;
-            p->rai = off == 0 && a->rai;
+            p->rai = (off == 0 && a->rai) || (flags & 8) != 0;
             int left = total - off;
             /* adaptation field: needed to pad the last packet of the PES, to
              * carry a PCR or the random access indicator, or just for stuffing */
@@ -291,7 +306,11 @@ static void packetise(void)
             p->segsel = op ? (uint64_t)op->a[2] : 0;
             p->fault = op ? (int)((uint64_t)op->a[5] % 6) : 0;
             int damage = op ? (int)((uint64_t)op->a[3] % 3) : 0;
-            p->lost = damage == 1;
+            if (damage == 1 && op != NULL && ((uint64_t)op->a[4] % 8) >= 6)
+                burst_left = 15 + (int)((uint64_t)op->a[4] % 8 - 6);    /* 15 or 16 packets in a row */
+            p->lost = damage == 1 || burst_left > 0;
+            if (burst_left > 0)
+                burst_left--;
             p->corrupt = damage == 2;
             npkt++;
             if ((flags & 2) && !p->lost && !p->corrupt && npkt < MAXPKT - 2) {
@@ -327,6 +346,7 @@ static struct urefcount probe_refcount;
 static unsigned ev_ready, ev_dead;
 
 static void noop_free(struct urefcount *r) { (void)r; }
+static struct { uint64_t cr_sys, dts_sys, pcr_sys; bool ready; unsigned n; } enc_status;
 
 static int catch(struct uprobe *uprobe, struct upipe *upipe, int event, va_list args)
 {
@@ -345,6 +365,19 @@ static int catch(struct uprobe *uprobe, struct upipe *upipe, int event, va_list 
     }
     if (upipe == &sink)
         return UBASE_ERR_NONE;
+    if (event == UPROBE_TS_ENCAPS_STATUS) {
+        va_list copy;
+        va_copy(copy, args);
+        if (va_arg(copy, uint32_t) == UPIPE_TS_ENCAPS_SIGNATURE) {
+            enc_status.cr_sys = va_arg(copy, uint64_t);
+            enc_status.dts_sys = va_arg(copy, uint64_t);
+            enc_status.pcr_sys = va_arg(copy, uint64_t);
+            enc_status.ready = va_arg(copy, int) != 0;
+            enc_status.n++;
+        }
+        va_end(copy);
+        return UBASE_ERR_NONE;
+    }
     switch (event) {
     case UPROBE_READY: ev_ready++; break;
     case UPROBE_DEAD: ev_dead++; break;
@@ -491,15 +524,520 @@ static struct uref *make_buffer(const uint8_t *data, int len, uint64_t cutsel)
     return uref;
 }
 
+/* ----------------------------------------------- encapsulation (round trip) */
+static uint8_t capbuf[MAXAU][MAXAUSIZE + 300];
+static int caplen[MAXAU];
+static int ncap;
+static bool cap_overflow;
+static struct upipe capsink;
+static struct urefcount capsink_refcount;
+static unsigned cap_requests;
+
+static void capsink_input(struct upipe *upipe, struct uref *uref, struct upump **upump_p)
+{
+    size_t size = 0;
+    uref_block_size(uref, &size);
+    if (ubase_check(uref_block_get_start(uref)))
+        ncap++;
+    if (ncap == 0 || ncap > MAXAU || caplen[ncap - 1] + (int)size > MAXAUSIZE + 300) {
+        cap_overflow = true;
+        uref_free(uref);
+        return;
+    }
+    if (size)
+        uref_block_extract(uref, 0, (int)size, capbuf[ncap - 1] + caplen[ncap - 1]);
+    caplen[ncap - 1] += (int)size;
+    uref_free(uref);
+}
+
+static int capsink_control(struct upipe *upipe, int command, va_list args)
+{
+    switch (command) {
+    case UPIPE_SET_FLOW_DEF:
+    case UPIPE_UNREGISTER_REQUEST:
+        return UBASE_ERR_NONE;
+    case UPIPE_REGISTER_REQUEST: {
+        struct urequest *rq = va_arg(args, struct urequest *);
+        cap_requests++;
+        if (rq->type == UREQUEST_UBUF_MGR) {
+            struct uref *ff = rq->uref ? uref_dup(rq->uref) : NULL;
+            if (rq->uref != NULL && ff == NULL)
+                return UBASE_ERR_ALLOC;
+            return urequest_provide_ubuf_mgr(rq, ubuf_mgr_use(ubuf_mgr), ff);
+        }
+        return UBASE_ERR_NONE;
+    }
+    default:
+        return UBASE_ERR_UNHANDLED;
+    }
+}
+
+static struct upipe_mgr capsink_mgr = {
+    .refcount = NULL, .signature = 0, .upipe_input = capsink_input, .upipe_control = capsink_control,
+};
+
+/** checks a PES packet written by pes_encaps against the layout of ISO/IEC
+ * 13818-1 table 2-21 (this parser shares nothing with the stand-in header) */
+static bool check_pes(const struct au *a, const uint8_t *p, int len, uint8_t id, int min_header, char *why, size_t wl)
+{
+    if (len < 9 || p[0] != 0 || p[1] != 0 || p[2] != 1) { snprintf(why, wl, "no start code prefix"); return false; }
+    if (p[3] != id) { snprintf(why, wl, "stream id %#x, %#x configured", p[3], id); return false; }
+    int plen = (p[4] << 8) | p[5];
+    if (plen != len - 6) { snprintf(why, wl, "PES_packet_length %d, %d octets follow", plen, len - 6); return false; }
+    if ((p[6] & 0xc0) != 0x80) { snprintf(why, wl, "marker bits '10' missing"); return false; }
+    if (p[6] & 0x30) { snprintf(why, wl, "scrambling control set"); return false; }
+    int flags = p[7] >> 6, hdl = p[8];
+    int want_flags = a->ts_mode == 0 ? 0 : (a->ts_mode == 2 && a->pts != a->dts) ? 3 : 2;
+    if (flags != want_flags) { snprintf(why, wl, "PTS_DTS_flags %d, %d expected", flags, want_flags); return false; }
+    if (p[7] & 0x3f) { snprintf(why, wl, "flags %#x announce fields that are not there", p[7] & 0x3f); return false; }
+    int need = flags == 3 ? 10 : flags == 2 ? 5 : 0;
+    if (hdl < need || 9 + hdl > len) { snprintf(why, wl, "header_data_length %d (needs %d, packet %d)", hdl, need, len); return false; }
+    if (9 + hdl < min_header) { snprintf(why, wl, "header of %d octets, minimum %d configured", 9 + hdl, min_header); return false; }
+    if (len - 9 - hdl != a->len) { snprintf(why, wl, "%d payload octets, unit has %d", len - 9 - hdl, a->len); return false; }
+    if (flags) {
+        const uint8_t *t = p + 9;
+        if ((t[0] >> 4) != (flags == 3 ? 3 : 2) || !(t[0] & 1) || !(t[2] & 1) || !(t[4] & 1)) {
+            snprintf(why, wl, "PTS field prefix / marker bits wrong (%02x %02x %02x %02x %02x)", t[0], t[1], t[2], t[3], t[4]);
+            return false;
+        }
+        uint64_t v = ((uint64_t)(t[0] & 0xe) << 29) | ((uint64_t)t[1] << 22) | ((uint64_t)(t[2] & 0xfe) << 14) |
+                     ((uint64_t)t[3] << 7) | (t[4] >> 1);
+        if (v != a->pts) { snprintf(why, wl, "PTS %" PRIu64 " written, %" PRIu64 " given", v, a->pts); return false; }
+    }
+    if (flags == 3) {
+        const uint8_t *t = p + 14;
+        if ((t[0] >> 4) != 1 || !(t[0] & 1) || !(t[2] & 1) || !(t[4] & 1)) { snprintf(why, wl, "DTS field prefix / marker bits wrong"); return false; }
+        uint64_t v = ((uint64_t)(t[0] & 0xe) << 29) | ((uint64_t)t[1] << 22) | ((uint64_t)(t[2] & 0xfe) << 14) |
+                     ((uint64_t)t[3] << 7) | (t[4] >> 1);
+        if (v != a->dts) { snprintf(why, wl, "DTS %" PRIu64 " written, %" PRIu64 " given", v, a->dts); return false; }
+    }
+    for (int i = 9 + need; i < 9 + hdl; i++)
+        if (p[i] != 0xff) { snprintf(why, wl, "stuffing octet %#x in the header", p[i]); return false; }
+    if (memcmp(p + 9 + hdl, a->data, (size_t)a->len)) { snprintf(why, wl, "payload differs from the unit"); return false; }
+    return true;
+}
+
+/** first half of the round trip: the real pes_encaps wraps the units */
+static bool encaps_units(void)
+{
+    static const uint8_t ids[] = { 0xe0, 0xc0, 0xbd, 0xe5, 0xc7 };
+    uint8_t id = ids[(uint64_t)plan->cfg[CFG_PES_ID] % 5];
+    int min_header = (int)((uint64_t)plan->cfg[CFG_PES_HEADER] % 3) == 0 ? 0 : 9 + (int)((uint64_t)plan->cfg[CFG_PES_HEADER] % 32);
+    memset(caplen, 0, sizeof(caplen));
+    ncap = 0;
+    cap_overflow = false;
+    cap_requests = 0;
+    upipe_init(&capsink, &capsink_mgr, uprobe_use(&probe));
+    urefcount_init(&capsink_refcount, noop_free);
+    capsink.refcount = &capsink_refcount;
+    struct upipe_mgr *mgr = upipe_ts_pese_mgr_alloc();
+    struct upipe *pese = upipe_void_alloc(mgr, uprobe_use(&probe));
+    upipe_mgr_release(mgr);
+    bool ok = pese != NULL;
+    if (ok) {
+        upipe_set_output(pese, &capsink);
+        struct uref *fd = uref_block_flow_alloc_def(uref_mgr, "es.");
+        ok = fd != NULL && ubase_check(uref_ts_flow_set_pes_id(fd, id));
+        if (ok && min_header)
+            ok = ubase_check(uref_ts_flow_set_pes_header(fd, (uint8_t)min_header));
+        int err = ok ? upipe_set_flow_def(pese, fd) : UBASE_ERR_ALLOC;
+        uref_free(fd);
+        if (!ubase_check(err)) {
+            sim_violation(V_CONTROL, "pes_encaps refuses block.es. with a PES id (%d)", err);
+            ok = false;
+        }
+    }
+    for (int n = 0; n < nau && ok && checking(); n++) {
+        struct au *a = &aus[n];
+        a->stream_id = id;
+        a->bounded = true;
+        struct uref *uref = make_buffer(a->data, a->len, (uint64_t)a->len * 2654435761u + (uint64_t)n);
+        if (uref == NULL)
+            break;
+        /* dates in 27 MHz units; what goes on the wire is 90 kHz modulo 2^33 */
+        if (a->ts_mode == 1)
+            uref_clock_set_pts_prog(uref, a->pts * 300 + (uint64_t)n % 300);
+        else if (a->ts_mode == 2) {
+            uref_clock_set_dts_prog(uref, a->dts * 300 + (uint64_t)n % 300);
+            uref_clock_set_dts_pts_delay(uref, ((a->pts + 0x200000000ULL - a->dts) & 0x1ffffffffULL) * 300);
+        }
+        if (a->ts_mode == 1)
+            a->dts = a->pts;
+        sim_ev("unit", (uint64_t)a->len, (uint64_t)a->ts_mode);
+        upipe_input(pese, uref, NULL);
+    }
+    if (pese != NULL)
+        upipe_release(pese);
+    if (checking() && !urefcount_single(&capsink_refcount))
+        sim_violation(V_LEAK, "the sink behind pes_encaps is still referenced after it was released");
+    upipe_clean(&capsink);
+    if (!ok || !checking() || cap_overflow)
+        return false;
+    if (ncap != nau) {
+        sim_violation(V_UNIT_LOST, "%d access units went into pes_encaps, %d PES packets came out", nau, ncap);
+        return false;
+    }
+    for (int n = 0; n < nau; n++) {
+        char why[160];
+        if (!check_pes(&aus[n], capbuf[n], caplen[n], id, min_header, why, sizeof(why))) {
+            sim_violation(V_PES_HEADER, "PES packet %d (unit of %d octets, timestamps mode %d): %s", n, aus[n].len,
+                          aus[n].ts_mode, why);
+            return false;
+        }
+        memcpy(aus[n].pes, capbuf[n], (size_t)caplen[n]);
+        aus[n].pes_len = caplen[n];
+    }
+    SIM_PROBE("ts_round_trip_through_pes_encaps");
+    return true;
+}
+
+/* ------------------------------------------- ts_encaps (full round trip) */
+/** the harness plays the mux: it pulls one TS packet after the other out of
+ * the real ts_encaps along the simulated mux clock, checks every packet
+ * against the layout of ISO/IEC 13818-1 2.4.3.2-2.4.3.7 with a parser of its
+ * own, and keeps them as the packet sequence the channel will carry */
+static bool tsencaps_units(void)
+{
+    static const uint8_t ids[] = { 0xe0, 0xc0, 0xbd, 0xe5, 0xc7 };
+    uint8_t id = ids[(uint64_t)plan->cfg[CFG_PES_ID] % 5];
+    unsigned pid = 32 + (unsigned)((uint64_t)plan->cfg[CFG_PID] % 8000);
+    unsigned cc0 = (unsigned)((uint64_t)plan->cfg[CFG_CC0] % 16);
+    bool align = ((uint64_t)plan->cfg[CFG_ALIGN] & 1) != 0;
+    int min_header = (int)((uint64_t)plan->cfg[CFG_PES_HEADER] % 3) == 0 ? 0 : 9 + (int)((uint64_t)plan->cfg[CFG_PES_HEADER] % 32);
+    uint64_t pcr_interval = ((uint64_t)plan->cfg[CFG_PCR_INTERVAL] % 4) == 0 ? 0 :
+                            2700 + (uint64_t)plan->cfg[CFG_PCR_INTERVAL] % 2700000;
+    uint64_t octetrate = 1000 + (uint64_t)plan->cfg[CFG_OCTETRATE] % 2000000;
+    uint64_t step = 1 + (uint64_t)plan->cfg[CFG_MUX_STEP] % 40000;
+    const uint64_t T0 = UINT64_C(27000000) * 100, K = UINT64_C(27000000) * 7, D = UCLOCK_FREQ / 2;
+
+    memset(&enc_status, 0, sizeof(enc_status));
+    enc_status.cr_sys = UINT64_MAX;
+    upipe_init(&capsink, &capsink_mgr, uprobe_use(&probe));
+    urefcount_init(&capsink_refcount, noop_free);
+    capsink.refcount = &capsink_refcount;
+    struct upipe_mgr *mgr = upipe_ts_encaps_mgr_alloc();
+    struct upipe *enc = upipe_void_alloc(mgr, uprobe_use(&probe));
+    upipe_mgr_release(mgr);
+    if (enc == NULL) {
+        sim_violation(V_CONTROL, "ts_encaps allocation failed");
+        upipe_clean(&capsink);
+        return false;
+    }
+    upipe_set_output(enc, &capsink);
+    struct uref *fd = uref_block_flow_alloc_def(uref_mgr, "es.");
+    bool ok = fd != NULL;
+    if (ok) {
+        uref_block_flow_set_octetrate(fd, octetrate);
+        uref_ts_flow_set_tb_rate(fd, octetrate * 2);
+        uref_ts_flow_set_pid(fd, pid);
+        uref_ts_flow_set_pes_id(fd, id);
+        if (align)
+            uref_ts_flow_set_pes_alignment(fd);
+        if (min_header)
+            uref_ts_flow_set_pes_header(fd, (uint8_t)min_header);
+        int err = upipe_set_flow_def(enc, fd);
+        if (!ubase_check(err)) {
+            sim_violation(V_CONTROL, "ts_encaps refuses its flow definition (%d)", err);
+            ok = false;
+        }
+    }
+    uref_free(fd);
+    if (ok && (!ubase_check(upipe_ts_mux_set_pcr_interval(enc, pcr_interval)) ||
+               !ubase_check(upipe_ts_mux_set_cc(enc, cc0)))) {
+        sim_violation(V_CONTROL, "ts_encaps refuses a PCR interval / continuity counter");
+        ok = false;
+    }
+    for (int n = 0; n < nau && ok && checking(); n++) {
+        struct au *a = &aus[n];
+        a->stream_id = id;
+        a->bounded = true;
+        struct uref *uref = make_buffer(a->data, a->len, (uint64_t)a->len * 2654435761u + (uint64_t)n);
+        if (uref == NULL) {
+            ok = false;
+            break;
+        }
+        uint64_t cr_sys = T0 + (uint64_t)n * 270000;
+        uref_clock_set_cr_sys(uref, cr_sys);
+        uref_clock_set_cr_dts_delay(uref, D);
+        /* without a clock reference the unit carries no timestamp */
+        if (pcr_interval == 0 && a->ts_mode == 0) {
+            a->ts_mode = 0;
+        } else {
+            /* one program clock for the whole run (constant offset to the
+             * system clock, with a sub-90 kHz remainder) */
+            uint64_t cr_prog = cr_sys - K + ((uint64_t)plan->cfg[CFG_PID] & 0xffff) * 300 + (uint64_t)plan->cfg[CFG_CC0] % 300;
+            uref_clock_set_cr_prog(uref, cr_prog);
+            uint64_t delta = a->ts_mode == 2 ? 1 + (a->pts + 0x200000000ULL - a->dts) % 90000 : 0;
+            uref_clock_set_dts_pts_delay(uref, delta * 300);
+            a->dts = ((cr_prog + D) / 300) & 0x1ffffffffULL;
+            a->pts = ((cr_prog + D + delta * 300) / 300) & 0x1ffffffffULL;
+            if (a->ts_mode == 0)
+                a->ts_mode = 1;
+        }
+        if (a->rai)
+            uref_flow_set_random(uref);
+        sim_ev("unit", (uint64_t)a->len, (uint64_t)a->ts_mode);
+        upipe_input(enc, uref, NULL);
+    }
+    if (ok)
+        upipe_ts_encaps_eos(enc);
+
+    /* pull the packets */
+    npkt = 0;
+    uint64_t mux = T0;
+    unsigned idle = 0;
+    while (ok && checking() && npkt < MAXPKT - 1 && idle < 3) {
+        struct ubuf *ubuf = NULL;
+        uint64_t dts_sys = 0;
+        bool had_data = enc_status.cr_sys != UINT64_MAX;
+        int err = upipe_ts_encaps_splice(enc, mux, mux + UCLOCK_FREQ * 100, &ubuf, &dts_sys);
+        mux += step;
+        if (!ubase_check(err)) {
+            sim_violation(V_CONTROL, "upipe_ts_encaps_splice failed (%d) with %s", err, had_data ? "data pending" : "nothing pending");
+            break;
+        }
+        if (ubuf == NULL) {
+            idle++;
+            continue;
+        }
+        size_t size = 0;
+        ubuf_block_size(ubuf, &size);
+        struct pkt *p = &pkts[npkt];
+        memset(p, 0, sizeof(*p));
+        if (size != 188 || !ubase_check(ubuf_block_extract(ubuf, 0, 188, p->d))) {
+            sim_violation(V_TS_PACKET, "ts_encaps returned a packet of %zu octets", size);
+            ubuf_free(ubuf);
+            break;
+        }
+        ubuf_free(ubuf);
+        p->au = -1;
+        npkt++;
+        if (!had_data)
+            idle++;             /* PCR / padding only: nothing left to carry */
+        else
+            idle = 0;
+    }
+    upipe_release(enc);
+    if (checking() && !urefcount_single(&capsink_refcount))
+        sim_violation(V_LEAK, "the sink behind ts_encaps is still referenced after it was released");
+    upipe_clean(&capsink);
+    if (!ok || !checking())
+        return false;
+
+    /* parse what came out (reference parser) and map packets to units */
+    unsigned cc = cc0;
+    int cur = -1;               /* PES packet being collected */
+    static uint8_t pes[MAXAU][MAXAUSIZE + 300];
+    int pes_len[MAXAU];
+    memset(pes_len, 0, sizeof(pes_len));
+    uint64_t last_pcr = 0;
+    bool any_pcr = false;
+    for (int i = 0; i < npkt; i++) {
+        struct pkt *p = &pkts[i];
+        const uint8_t *d = p->d;
+        char why[120] = "";
+        unsigned afc = (d[3] >> 4) & 3;
+        if (d[0] != 0x47) snprintf(why, sizeof(why), "sync octet %#x", d[0]);
+        else if ((unsigned)(((d[1] & 0x1f) << 8) | d[2]) != pid) snprintf(why, sizeof(why), "PID %u, %u configured", ((d[1] & 0x1f) << 8) | d[2], pid);
+        else if (d[1] & 0x80) snprintf(why, sizeof(why), "transport_error_indicator set");
+        else if (d[3] & 0xc0) snprintf(why, sizeof(why), "scrambling control set");
+        else if (afc == 0) snprintf(why, sizeof(why), "adaptation_field_control 00 is reserved");
+        int off = 4;
+        bool payload = (afc & 1) != 0;
+        if (!why[0] && (afc & 2)) {
+            int afl = d[4];
+            if ((payload && afl > 182) || (!payload && afl != 183))
+                snprintf(why, sizeof(why), "adaptation_field_length %d with%s payload", afl, payload ? "" : "out");
+            else if (afl > 0) {
+                int need = 1 + ((d[5] & 0x10) ? 6 : 0);
+                if (d[5] & 0x0f) snprintf(why, sizeof(why), "adaptation field flags %#x announce fields nobody wrote", d[5] & 0x0f);
+                else if (afl < need) snprintf(why, sizeof(why), "adaptation_field_length %d too short for its flags %#x", afl, d[5]);
+                else {
+                    for (int k = 5 + need; k < 5 + afl && !why[0]; k++)
+                        if (d[k] != 0xff) snprintf(why, sizeof(why), "stuffing octet %#x in the adaptation field", d[k]);
+                    if (d[5] & 0x10) {
+                        uint64_t base = ((uint64_t)d[6] << 25) | ((uint64_t)d[7] << 17) | ((uint64_t)d[8] << 9) | ((uint64_t)d[9] << 1) | (d[10] >> 7);
+                        uint64_t ext = ((uint64_t)(d[10] & 1) << 8) | d[11];
+                        uint64_t pcr = base * 300 + ext;
+                        if (ext >= 300) snprintf(why, sizeof(why), "PCR extension %" PRIu64, ext);
+                        else if (any_pcr && pcr < last_pcr && last_pcr - pcr < UINT64_C(27000000) * 3600)
+                            snprintf(why, sizeof(why), "PCR goes backwards (%" PRIu64 " after %" PRIu64 ")", pcr, last_pcr);
+                        last_pcr = pcr;
+                        any_pcr = true;
+                        SIM_PROBE("ts_pcr");
+                    }
+                    p->rai = (d[5] & 0x40) != 0;
+                }
+            }
+            off = 5 + afl;
+        }
+        if (!why[0]) {
+            if (payload) {
+                cc = (cc + 1) & 0xf;
+                if ((unsigned)(d[3] & 0xf) != cc) snprintf(why, sizeof(why), "continuity counter %u, %u expected", d[3] & 0xf, cc);
+            } else if ((unsigned)(d[3] & 0xf) != cc)
+                snprintf(why, sizeof(why), "continuity counter %u on a packet without payload, last was %u", d[3] & 0xf, cc);
+        }
+        if (why[0]) {
+            sim_violation(V_TS_PACKET, "packet %d written by ts_encaps: %s", i, why);
+            return false;
+        }
+        p->pusi = (d[1] & 0x40) != 0;
+        p->af_only = !payload;
+        p->payload_off = off;
+        p->payload_len = payload ? 188 - off : 0;
+        p->segsel = (uint64_t)i * 0x9e3779b97f4a7c15ULL >> 20;
+        if (!payload)
+            continue;
+        if (p->pusi) {
+            cur++;
+            if (cur >= nau) {
+                sim_violation(V_TS_PACKET, "ts_encaps starts PES packet %d, %d units went in", cur + 1, nau);
+                return false;
+            }
+            aus[cur].first_pkt = i;
+        }
+        if (cur < 0) {
+            sim_violation(V_TS_PACKET, "packet %d carries payload before any payload unit start", i);
+            return false;
+        }
+        if (pes_len[cur] + p->payload_len > MAXAUSIZE + 300) {
+            sim_violation(V_TS_PACKET, "PES packet %d grows beyond anything that went in", cur);
+            return false;
+        }
+        memcpy(pes[cur] + pes_len[cur], d + off, (size_t)p->payload_len);
+        pes_len[cur] += p->payload_len;
+        aus[cur].last_pkt = i;
+        p->au = cur;
+    }
+    if (cur + 1 != nau) {
+        sim_violation(V_UNIT_LOST, "%d access units went into ts_encaps, %d PES packets came out (%d packets)", nau, cur + 1, npkt);
+        return false;
+    }
+    if (align) {
+        for (int n = 0; n < nau; n++) {
+            char why[160];
+            /* the data alignment indicator is set by design here */
+            uint8_t tmp6 = pes[n][6];
+            pes[n][6] &= (uint8_t)~0x04;
+            bool good = check_pes(&aus[n], pes[n], pes_len[n], id, min_header, why, sizeof(why));
+            pes[n][6] = tmp6;
+            if (!good) {
+                sim_violation(V_PES_HEADER, "PES packet %d written by ts_encaps (unit of %d octets, timestamps mode %d): %s",
+                              n, aus[n].len, aus[n].ts_mode, why);
+                return false;
+            }
+            if (aus[n].rai != pkts[aus[n].first_pkt].rai) {
+                sim_violation(V_MARKER, "unit %d: random access %d given, indicator %d written", n, aus[n].rai,
+                              pkts[aus[n].first_pkt].rai);
+                return false;
+            }
+            memcpy(aus[n].pes, pes[n], (size_t)pes_len[n]);
+            aus[n].pes_len = pes_len[n];
+        }
+        SIM_PROBE("ts_round_trip_through_ts_encaps_aligned");
+    } else {
+        /* units may overlap PES packets: the elementary stream as a whole
+         * must come out, every PES header well-formed */
+        static uint8_t es[MAXAU * MAXAUSIZE];
+        int es_len = 0, want_len = 0;
+        for (int n = 0; n < nau; n++) {
+            const uint8_t *q = pes[n];
+            int l = pes_len[n];
+            if (l < 9 || q[0] || q[1] || q[2] != 1 || q[3] != id || (q[6] & 0xc0) != 0x80 || 9 + q[8] > l ||
+                (((q[4] << 8) | q[5]) != l - 6)) {
+                sim_violation(V_PES_HEADER, "PES packet %d written by ts_encaps (not aligned) is malformed (%d octets)", n, l);
+                return false;
+            }
+            memcpy(es + es_len, q + 9 + q[8], (size_t)(l - 9 - q[8]));
+            es_len += l - 9 - q[8];
+        }
+        for (int n = 0; n < nau; n++)
+            want_len += aus[n].len;
+        bool same = es_len == want_len;
+        int o = 0;
+        for (int n = 0; n < nau && same; n++) {
+            same = !memcmp(es + o, aus[n].data, (size_t)aus[n].len);
+            o += aus[n].len;
+        }
+        if (!same) {
+            sim_violation(V_PAYLOAD, "ts_encaps (not aligned): %d elementary stream octets came out, %d went in, or they differ",
+                          es_len, want_len);
+            return false;
+        }
+        SIM_PROBE("ts_round_trip_through_ts_encaps_overlapping");
+        /* the decapsulation half is compared unit by unit only in aligned mode */
+        return false;
+    }
+    return true;
+}
+
+/** applies the channel decisions of the plan (duplicate, lose, corrupt) to a
+ * packet sequence that was not produced by packetise() */
+static void channel_from_ops(void)
+{
+    static struct pkt tmp[MAXPKT];
+    int opi = 0, n = 0;
+    for (int i = 0; i < npkt && n < MAXPKT - 2; i++) {
+        const struct sim_op *op = next_pkt_op(&opi);
+        tmp[n] = pkts[i];
+        struct pkt *p = &tmp[n++];
+        uint64_t flags = op ? (uint64_t)op->a[1] : 0;
+        int damage = op ? (int)((uint64_t)op->a[3] % 3) : 0;
+        p->segsel = op ? (uint64_t)op->a[2] : p->segsel;
+        p->fault = op ? (int)((uint64_t)op->a[5] % 6) : 0;
+        p->lost = damage == 1 && !p->af_only;
+        p->corrupt = damage == 2;
+        if ((flags & 2) && !p->lost && !p->corrupt && !p->af_only) {
+            tmp[n] = *p;
+            tmp[n].dup = true;
+            tmp[n].fault = 0;
+            n++;
+            SIM_PROBE("fault_packet_duplicated");
+        }
+    }
+    /* packet indices moved: recompute which packets carry which unit */
+    for (int a = 0; a < nau; a++) {
+        aus[a].first_pkt = -1;
+        aus[a].last_pkt = -1;
+    }
+    memcpy(pkts, tmp, sizeof(pkts[0]) * (size_t)n);
+    npkt = n;
+    for (int i = 0; i < npkt; i++) {
+        int a = pkts[i].au;
+        if (a < 0)
+            continue;
+        if (aus[a].first_pkt < 0)
+            aus[a].first_pkt = i;
+        aus[a].last_pkt = i;
+    }
+}
+
 /* ----------------------------------------------------------------- decaps */
-static void run_decaps(void)
+static void run_decaps(int kind)
 {
     for (int i = 0; i < plan->nops; i++)
         if (plan->ops[i].code == OP_AU)
             build_au(&plan->ops[i]);
     if (nau == 0)
         return;
-    packetise();
+    if (kind == K_TSENCAPS) {
+        if (!tsencaps_units())
+            return;
+    } else if (kind == K_ROUNDTRIP) {
+        if (!encaps_units())
+            return;
+    } else
+        for (int n = 0; n < nau; n++) {
+            int hl = ref_pes_header(&aus[n], aus[n].pes);
+            memcpy(aus[n].pes + hl, aus[n].data, (size_t)aus[n].len);
+            aus[n].pes_len = hl + aus[n].len;
+        }
+    if (kind != K_TSENCAPS)
+        packetise();
+    else
+        channel_from_ops();
+    ev_ready = ev_dead = 0;
 
     struct upipe_mgr *mgr = upipe_ts_decaps_mgr_alloc();
     struct upipe *decaps = upipe_void_alloc(mgr, uprobe_use(&probe));
@@ -523,13 +1061,15 @@ static void run_decaps(void)
     int release_at = plan->cfg[CFG_RELEASE_AT] > 0 ? (int)((uint64_t)plan->cfg[CFG_RELEASE_AT] % (uint64_t)(npkt + 1)) : npkt;
     int lost_run = 0;
     /* gap_after[i]: packet i is the first payload packet delivered after a gap */
-    static bool gap_before[MAXPKT];
+    static bool gap_before[MAXPKT], gap_optional[MAXPKT];
     memset(gap_before, 0, sizeof(gap_before));
+    memset(gap_optional, 0, sizeof(gap_optional));
     for (int i = 0; i < npkt && i < release_at && checking(); i++) {
         struct pkt *p = &pkts[i];
         feeding_pkt = i;
-        if (p->lost && !p->af_only && i > 0 && lost_run < 14) {
-            /* (a gap of 16 packets cannot be seen in a 4-bit counter) */
+        if (p->lost && !p->af_only && i > 0 && lost_run < 16) {
+            /* (a gap of 16 packets shows the same counter again: only the
+             * comparison with the last payload tells it from a duplicate) */
             any_lost = true;
             lost_run++;
             SIM_PROBE("fault_packet_lost");
@@ -540,7 +1080,14 @@ static void run_decaps(void)
         }
         p->lost = false;
         if (lost_run && !p->af_only) {
-            gap_before[i] = true;
+            /* sixteen packets lost: the 4-bit counter shows nothing */
+            if (lost_run % 16 != 0)
+                gap_before[i] = true;
+            else {
+                /* (unless an adaptation-only packet in between gives it away) */
+                gap_optional[i] = true;
+                SIM_PROBE("ts_gap_of_16_invisible");
+            }
             lost_run = 0;
         }
         uint8_t d[188];
@@ -629,8 +1176,9 @@ static void run_decaps(void)
                 return;
             }
             end_seen = end_seen || chunks[cc].end;
-            if (cc > c && chunks[cc].random) {
-                sim_violation(V_MARKER, "access unit %d: random access marker on a chunk that is not its first", n);
+            if (cc > c && chunks[cc].random != pkts[chunks[cc].after_pkt].rai) {
+                sim_violation(V_MARKER, "access unit %d: packet %d has random access indicator %d, the chunk it gave has %d",
+                              n, chunks[cc].after_pkt, pkts[chunks[cc].after_pkt].rai, chunks[cc].random);
                 return;
             }
             cc++;
@@ -640,15 +1188,19 @@ static void run_decaps(void)
                           a->first_pkt, a->last_pkt);
             return;
         }
-        int hl = 9 + (a->ts_mode == 1 ? 5 : a->ts_mode == 2 ? 10 : 0) + a->hdr_stuffing;
-        bool bounded = a->bounded && hl + a->len - 6 <= 0xffff;
+        bool bounded = a->bounded && a->pes_len - 6 <= 0xffff;
         if (bounded != end_seen) {
             sim_violation(V_MARKER, "access unit %d: PES length %s, end marker %s", n, bounded ? "announced" : "unbounded",
                           end_seen ? "set" : "not set");
             return;
         }
-        if (chunks[c].random != a->rai) {
-            sim_violation(V_MARKER, "access unit %d: random access indicator %d in the stream, %d on the unit", n, a->rai,
+        bool want_random = false;
+        for (int i = a->first_pkt; i <= chunks[c].after_pkt; i++)
+            want_random = want_random || (pkts[i].rai && !pkts[i].dup && !pkts[i].af_only);
+        /* (the first chunk may hold several packets' worth of PES header: it
+         * carries the marker of the packet that started it) */
+        if (chunks[c].random != want_random && chunks[c].random != pkts[a->first_pkt].rai) {
+            sim_violation(V_MARKER, "access unit %d: random access indicator %d in the stream, %d on the unit", n, want_random,
                           chunks[c].random);
             return;
         }
@@ -682,6 +1234,8 @@ static void run_decaps(void)
             want = true;
             want_pkt = i;
         }
+        if (gap_optional[i])
+            optional = true;
         first_payload = false;
         while (c < nchunk && chunks[c].after_pkt < i)
             c++;
@@ -711,7 +1265,14 @@ static void run_decaps(void)
 static void gen(const char *pr, struct sim_rng *r, struct sim_plan *p)
 {
     p->cfg[CFG_PROP] = atoi(pr + 1);
-    p->cfg[CFG_KIND] = 0;
+    uint32_t kk = sim_rng_below(r, 10);
+    p->cfg[CFG_KIND] = kk < 4 ? K_DECAPS : kk < 6 ? K_ROUNDTRIP : K_TSENCAPS;
+    p->cfg[CFG_ALIGN] = sim_rng_chance(r, 2, 3);
+    p->cfg[CFG_PCR_INTERVAL] = sim_rng_below(r, 4000000);
+    p->cfg[CFG_OCTETRATE] = sim_rng_below(r, 2000000);
+    p->cfg[CFG_MUX_STEP] = sim_rng_below(r, 40000);
+    p->cfg[CFG_PES_ID] = sim_rng_below(r, 5);
+    p->cfg[CFG_PES_HEADER] = sim_rng_below(r, 96);
     p->cfg[CFG_POOL] = sim_rng_below(r, 4);
     p->cfg[CFG_UMEM_OFF] = sim_rng_below(r, 7);
     p->cfg[CFG_FAULTS] = sim_rng_chance(r, 1, 5);
@@ -727,11 +1288,12 @@ static void gen(const char *pr, struct sim_rng *r, struct sim_plan *p)
     int np = 4 + (int)sim_rng_below(r, 80);
     for (int i = 0; i < np; i++) {
         uint32_t wish = style == 0 ? 0 : style == 1 ? sim_rng_below(r, 190) : sim_rng_chance(r, 1, 3) ? sim_rng_below(r, 190) : 0;
-        uint32_t flags = (sim_rng_chance(r, 1, 8) ? 1 : 0) | (sim_rng_chance(r, 1, 10) ? 2 : 0) | (sim_rng_chance(r, 1, 12) ? 4 : 0);
+        uint32_t flags = (sim_rng_chance(r, 1, 8) ? 1 : 0) | (sim_rng_chance(r, 1, 10) ? 2 : 0) | (sim_rng_chance(r, 1, 12) ? 4 : 0) |
+                         (sim_rng_chance(r, 1, 16) ? 8 : 0);
         uint32_t dmg = 0;
         if (damage == 1 && sim_rng_chance(r, 1, 10)) dmg = 1;
         else if (damage == 2 && sim_rng_chance(r, 1, 10)) dmg = 1 + sim_rng_below(r, 2);
-        sim_plan_add(p, 0, OP_PKT, wish, flags, (int64_t)(sim_rng_next(r) >> 20), dmg, 0,
+        sim_plan_add(p, 0, OP_PKT, wish, flags, (int64_t)(sim_rng_next(r) >> 20), dmg, sim_rng_chance(r, 1, 5) ? 6 + sim_rng_below(r, 2) : 0,
                      p->cfg[CFG_FAULTS] && sim_rng_chance(r, 1, 6) ? 1 + sim_rng_below(r, 5) : 0);
     }
 }
@@ -740,7 +1302,7 @@ static void run(const char *pr, const struct sim_plan *pl)
 {
     plan = pl;
     env_setup();
-    run_decaps();
+    run_decaps((int)((uint64_t)plan->cfg[CFG_KIND] % K__N));
     env_teardown();
     sim_mark_nontrivial();
     sim_sig_add(1, sim_mix((uint64_t)nau, sim_mix((uint64_t)npkt, (uint64_t)nchunk)));
